@@ -213,6 +213,9 @@ def discobrackets(tree, stream, **params):
     separated from the tree by a tab (terminal space-separated).
     """
     terminals = trees.terminals(tree)
+    # brackets inside tokens must be replaced in the sentence part, too
+    for terminal in terminals:
+        trees.replace_chars(terminal, trees.BRACKETS)
     sentence = ' '.join([terminal.data['word'] for terminal in terminals])
     for terminal in terminals:
         terminal.data['word'] = str(terminal.data['num'])
